@@ -24,4 +24,8 @@ def build(E):
     tofu_store.add_targets(E, spec, "C11", names=("verify", "trust"))
     TOFU = "nauyaca.security.tofu:TOFUDatabase."
     spec.keep = lambda name: True if name.startswith(TOFU) else (sess_keep(name) if sess_keep else True)
+    from contracts import cert_funcs
+    cert_funcs.add_targets(E, spec, "C11", which=("fingerprint",))
+    k0 = spec.keep
+    spec.keep = lambda name: True if name.startswith("nauyaca.security.certificates:") else k0(name)
     return spec
